@@ -34,7 +34,8 @@ caught = {}
 for l in st.stdout.splitlines():
     w = l.split()
     if len(w) >= 3 and w[1] == "exit": caught[w[0]] = (w[2] != "0", l.split("|", 1)[1].strip() if "|" in l else "")
-dst = os.path.join(ROOT, "seeded", "%s-%s" % (pid, x)); os.makedirs(dst, exist_ok=True)
+name = os.environ.get("SEED_NAME", x)   # round 3 stores A/B as C/D
+dst = os.path.join(ROOT, "seeded", "%s-%s" % (pid, name)); os.makedirs(dst, exist_ok=True)
 shutil.copy(diff, os.path.join(dst, "patch.diff"))
 for f in os.listdir(out):
     if f.startswith("demo_" + x) or f == "build_and_run.sh": shutil.copy(os.path.join(out, f), os.path.join(dst, f))
